@@ -24,6 +24,14 @@
 // ones; the predicate is evaluated over the groups ContractManagement holds at
 // the moment of each check, and the three ways of asking about a group (Group,
 // CustomGroups, CalledByGroup from the callee) must agree.
+//
+// Extension "no verdict" (ext_err_test.go, round 4): facts that cannot be read
+// (no ReadStates in the executing context; stub contexts whose group methods
+// fail). Three-valued reference: a reached leaf without a value leaves the check
+// without a verdict (FAULT / error), never a match nor a non-match for the
+// Not/And/Or above it or for the rule list; all trees of depth 2 over a small
+// leaf set in the VM (plan rules-tree2), all trees of the match layer on failing
+// contexts.
 package c15
 
 import (
@@ -168,6 +176,8 @@ func makePlans(r *vk.Run, chains []chain) []plan {
 		}
 	}
 	plans = append(plans, plan{Name: "zero-caller", Cfgs: singleRulePlanCfgs([]cfg{{Scope: R}}, rulesOf(zc)), Chains: all, Zero: true})
+	// rules-tree2 (ext_err_test.go): every tree of depth 2 over a small leaf set with group leaves, with / without ReadStates
+	plans = append(plans, plan{Name: "rules-tree2", Cfgs: tree2Cfgs(r.Thorough()), Chains: tree2Chains(chains, r.Thorough())})
 	// facts: configurations reading groups x chains in which a contract changes its groups / destroys itself
 	plans = append(plans, plan{Name: "facts", Cfgs: factsCfgs(r.Thorough()), Chains: changing})
 	if r.Thorough() {
@@ -282,6 +292,7 @@ func TestCheck(t *testing.T) {
 		plans = keep
 	}
 	var invocations, evals, cwTrue, cwFalse, undecided, contRuns, stateCount, factsDep, agreeCmp vk.Counter
+	var norsNone, norsEither, norsVerdict vk.Counter
 	ctxSet := vk.NewSet()
 	cells := vk.NewSet()
 	var mu sync.Mutex
@@ -299,6 +310,8 @@ func TestCheck(t *testing.T) {
 	for _, p := range plans {
 		nb := (len(p.Cfgs) + slots - 1) / slots
 		nj := nb * len(p.Chains)
+		var pEvals, pNone, pEither, pVerdict, pTrue, pFalse, pErr vk.Counter
+		pClasses, pSits := vk.NewSet(), vk.NewSet()
 		done := r.Parallel(nj, func(j int) {
 			bi, ci := j/len(p.Chains), p.Chains[j%len(p.Chains)]
 			cfgs := p.Cfgs[bi*slots : min(len(p.Cfgs), (bi+1)*slots)]
@@ -328,12 +341,24 @@ func TestCheck(t *testing.T) {
 			cwFalse.Add(st.False)
 			undecided.Add(st.Undecided)
 			factsDep.Add(st.FactsDep)
+			norsNone.Add(st.NoRSNone)
+			pEvals.Add(st.Evals)
+			pNone.Add(st.NoRSNone)
+			pEither.Add(st.NoRSEither)
+			pVerdict.Add(st.NoRSVerdict)
+			pTrue.Add(st.True)
+			pFalse.Add(st.False)
+			pErr.Add(st.Undecided)
+			norsEither.Add(st.NoRSEither)
+			norsVerdict.Add(st.NoRSVerdict)
 			agreeCmp.Add(agreementPairs(b, cfgs))
 			for k := range st.Contexts {
 				ctxSet.Add(k)
+				pSits.Add(k)
 			}
 			for k := range st.Classes {
 				r.Outcome(k)
+				pClasses.Add(k)
 			}
 			mu.Lock()
 			fs := fams[b.Chain.family()]
@@ -394,7 +419,19 @@ func TestCheck(t *testing.T) {
 				r.Violation(fmt.Sprintf("%s:%s:%s:lvl%d:%s:%s:got-%s", layer, cfgKey, b.Chain, m.Frame, m.What, q, m.Got), f)
 			}
 		})
-		planInfo[p.Name] = map[string]any{"configs": len(p.Cfgs), "transactions": nb, "chains": len(p.Chains), "invocations_planned": nj, "invocations_done": done}
+		planInfo[p.Name] = map[string]any{"configs": len(p.Cfgs), "transactions": nb, "chains": len(p.Chains), "invocations_planned": nj, "invocations_done": done,
+			"checkwitness_evaluations": pEvals.Get(), "observed_true": pTrue.Get(), "observed_false": pFalse.Get(), "observed_fault": pErr.Get(),
+			"nors_reference_no_verdict": pNone.Get(), "nors_reference_verdict": pVerdict.Get(), "nors_reference_verdict_or_fault": pEither.Get(),
+			"distinct_check_situations": pSits.Len(), "distinct_outcome_classes": pClasses.Len()}
+		if p.Name == "rules-tree2" { // scalars survive the merge of the evidence
+			cov["tree2_configs"], cov["tree2_chains"], cov["tree2_invocations"] = len(p.Cfgs), len(p.Chains), done
+			cov["tree2_checkwitness_evaluations"] = int(pEvals.Get())
+			cov["tree2_distinct_check_situations"], cov["tree2_distinct_outcome_classes"] = pSits.Len(), pClasses.Len()
+			cov["tree2_observed_true"], cov["tree2_observed_false"], cov["tree2_observed_fault"] = int(pTrue.Get()), int(pFalse.Get()), int(pErr.Get())
+			cov["tree2_nors_reference_no_verdict_must_fault"] = int(pNone.Get())
+			cov["tree2_nors_reference_verdict_despite_group_leaf_must_not_fault"] = int(pVerdict.Get())
+			cov["tree2_nors_reference_verdict_or_fault"] = int(pEither.Get())
+		}
 		totalCfgs += len(p.Cfgs)
 		fmt.Printf("plan %-18s configs=%d invocations=%d/%d elapsed=%.0fs\n", p.Name, len(p.Cfgs), done, nj, r.Elapsed())
 	}
@@ -412,6 +449,9 @@ func TestCheck(t *testing.T) {
 	cov["vm_expected_false"] = int(cwFalse.Get())
 	cov["vm_undecided_error_without_readstates"] = int(undecided.Get())
 	cov["vm_continue_after_error_validations"] = int(contRuns.Get())
+	cov["vm_nors_reference_no_verdict_must_fault"] = int(norsNone.Get())
+	cov["vm_nors_reference_verdict_must_not_fault"] = int(norsVerdict.Get())
+	cov["vm_nors_reference_verdict_or_fault"] = int(norsEither.Get())
 	cov["vm_chain_variants"] = len(chains)
 	cov["vm_chain_variants_base"] = nBase
 	famInfo := map[string]any{}
@@ -444,8 +484,12 @@ func TestCheck(t *testing.T) {
 	cov["rule"] = "state = (signer configuration, chain variant, level); every state is executed on the real VM (transitions = CheckWitness / Match evaluations compared with the reference predicate)"
 	r.Finish(cov, []string{
 		"results are observed where the VM dispatches System.Runtime.CheckWitness (argument, executing script, call flags, result/error), not through contract return values",
-		"a CheckWitness error (only seen without ReadStates when a manifest is needed) FAULTs the real VM; the harness records it as 'not decided' and continues the same execution with a placeholder result (validated against uninterrupted runs in plan 'scopes': same trace prefix, FAULT with 'failed to check witness')",
-		"without ReadStates only non-error results are compared with the predicate (the property does not say what a check that cannot read the manifest must do)",
+		"a CheckWitness error (only seen without ReadStates when a manifest is needed) FAULTs the real VM; the harness records it as 'no verdict' and continues the same execution with a placeholder result (validated against uninterrupted runs in plan 'scopes': same trace prefix, FAULT with 'failed to check witness')",
+		"without ReadStates the groups of no contract can be read; the reference is three-valued there (pred_test.go eval3/outcomes3): rule lists and conditions are evaluated strictly left to right with short circuit, a Group/CalledByGroup leaf that is REACHED has no value and leaves the whole check without a verdict (the check must fail = FAULT; never true, never false), leaves not reached do not matter; a verdict must be delivered (no FAULT) when no such leaf is reached",
+		"left open by the property and accepted either way (verdict or failure): CalledByGroup in the entry script (nobody called it: false without reading anything, the engine fails first); the custom-groups scope with an empty list; between the scope BITS of one signer no evaluation order is demanded (a granting bit next to one without a value: true or failure)",
+		"Match returning (true, error) is counted (match_errctx_failures_carrying_true), not judged: the error alone means no verdict; every composite that would trust the boolean is enumerated above it",
+		"plan rules-tree2: Rules scope, [Allow t] for every tree t of depth exactly 2 (inner And/Or of up to 2 children) over {Group(G1), CalledByGroup(G1), CalledByEntry, Bool(true), Bool(false)} that has a group leaf, [Deny t; Allow Bool(true)] for those over the first three leaves; quick: chains of up to 2 steps over {A, B(G1), dynamic script, GAS.transfer->B} plus A>B>A, B>A>B, B>B>B, A>L>B, each with and without ReadStates in the last context; thorough: leaves + {Group(G2), CalledByGroup(G2), ScriptHash(B), CalledByContract(B)}, every chain of up to 2 steps of every family",
+		"match layer, contexts with unreadable facts: the group method of the current script, of the calling script or of both fails (thorough: also for one key only); only the tree as built is evaluated there (decoded forms are compared on the plain contexts); thorough adds trees of depth 3 (root over a tree of depth 2 over 5 leaves, optionally with a leaf before/after it) although the codecs refuse that nesting",
 		"up to 15 configurations share one transaction as 15 different signers (plus a fixed signer whose account is contract B); signers are not validated (test invocation), so lists of a scope whose bit is unset can be present",
 		"chains: entry + up to 3 steps over {A, B(G1), C(G1,G2), dynamic script, GAS.transfer->A|B|C}; a native transfer below a dynamic script is impossible (read-only flags) and is not part of the space",
 		"identity extension: chains with steps S (LoadScript of a byte-identical copy of the entry script, bytes taken from System.Runtime.GetScriptContainer) and T (copies of one shared dynamic script), and chains whose entry context is verify(prog) of a deployed contract W(G2)/V(no group) under the Verification trigger (blockchain.InitVerificationContext; the invocation script only pushes the program and executes no check); the predicate's entry relation and calling contract are chain POSITIONS (level <= 1, level-1), never hash comparisons; a level marker account asked first at every level proves which body of a polymorphic script ran",
@@ -512,6 +556,7 @@ func replay(r *vk.Run) {
 		var f matchFail
 		_ = r.ReadReplay(&f)
 		m := newMatchWorld()
+		m.nE = len(m.ectxs)
 		for i := 0; i < 5; i++ {
 			m.checkTree(m.mk(f.Tree), true, func(g matchFail) {
 				if g.Form != f.Form || (f.Ctx >= 0 && g.Ctx != f.Ctx) {
